@@ -23,56 +23,71 @@ def Raises {β} (r : Except Err β) : Prop := ∃ e, r = .error e
 theorem raises_bind {β γ} {r : Except Err β} (g : β → Except Err γ) (h : Raises r) : Raises (r >>= g) := by
   obtain ⟨e, rfl⟩ := h; exact ⟨e, rfl⟩
 
-/-- **an unadvertised prox raises**: when the flag computed by the constructors is `False`,
-    `prox` raises for every argument (so the code never returns a value it does not advertise) -/
-theorem prox_raises_of_not_hasProxCode (E : Env α) :
-    ∀ (t : Fn α) (v : Arg α) (lam : α), hasProxCode E t = false → Raises (prox E t v lam) := by
+/-- every `ScaledFunctional` node has a positive scale (for a non-positive scale the flag is
+    cleared although `prox` still forwards to the wrapped functional) -/
+def ScaledPos : Fn α → Prop
+  | .leaf _ => True
+  | .scaled c f => 0 < c ∧ ScaledPos f
+  | .sum f g => ScaledPos f ∧ ScaledPos g
+  | .snil => True
+  | .scons f r => ScaledPos f ∧ ScaledPos r
+  | .lossNone _ _ _ => True
+  | .loss _ _ f _ => ScaledPos f
+  | .sqL2 _ _ _ _ => True
+
+/-- **an unadvertised prox raises**: when `has_prox` is `False` (and the flag was not cleared
+    because of a non-positive scale), `prox` raises for every argument -/
+theorem prox_raises_of_not_hasProx (E : Env α) :
+    ∀ (t : Fn α) (v : Arg α) (lam : α), hasProx E t = false → ScaledPos t → Raises (prox E t v lam) := by
   intro t
   induction t with
-  | leaf i => intro v lam h; simp only [hasProxCode] at h; exact ⟨.notimpl, by simp [prox, h]⟩
-  | scaled c f ih => intro v lam h; simp only [hasProxCode] at h; simpa [prox] using ih v (lam * c) h
-  | sum f g _ _ => intro v lam _; exact ⟨.notimpl, rfl⟩
-  | snil => intro v lam h; simp [hasProxCode] at h
+  | leaf i => intro v lam h _; simp only [hasProx] at h; exact ⟨.notimpl, by simp [prox, h]⟩
+  | scaled c f ih =>
+    intro v lam h hp
+    simp only [hasProx, Bool.and_eq_false_iff, decide_eq_false_iff_not] at h
+    rcases h with h | h
+    · simpa [prox] using ih v (lam * c) h hp.2
+    · exact absurd hp.1 h
+  | sum f g _ _ => intro v lam _ _; exact ⟨.notimpl, rfl⟩
+  | snil => intro v lam h; simp [hasProx] at h
   | scons f r ihf ihr =>
-    intro v lam h
-    simp only [hasProxCode, Bool.and_eq_false_iff] at h
+    intro v lam h hp
+    simp only [hasProx, Bool.and_eq_false_iff] at h
     match v with
     | .arr _ => exact ⟨.type, rfl⟩
     | .blk [] => exact ⟨.value, rfl⟩
     | .blk (b :: bs) =>
       simp only [prox]
       rcases h with h | h
-      · exact raises_bind _ (ihf (.arr b) lam h)
-      · cases hp : prox E f (.arr b) lam with
+      · exact raises_bind _ (ihf (.arr b) lam h hp.1)
+      · cases hq : prox E f (.arr b) lam with
         | error e => exact ⟨e, rfl⟩
         | ok p =>
-          obtain ⟨e, he⟩ := ihr (.blk bs) lam h
+          obtain ⟨e, he⟩ := ihr (.blk bs) lam h hp.2
           exact ⟨e, by simp [he, bind, Except.bind]⟩
-  | lossNone y A s => intro v lam _; exact ⟨.notimpl, rfl⟩
+  | lossNone y A s => intro v lam _ _; exact ⟨.notimpl, rfl⟩
   | loss y A f s ih =>
-    intro v lam h
-    simp only [hasProxCode] at h
-    cases A with
-    | none => simp at h
-    | some i => exact ⟨.notimpl, rfl⟩
+    intro v lam h _
+    simp only [hasProx] at h
+    exact ⟨.notimpl, by simp [prox, h]⟩
   | sqL2 y A w s =>
-    intro v lam h
+    intro v lam h _
     cases A with
     | nonlin i => exact ⟨.notimpl, rfl⟩
-    | ident => simp [hasProxCode] at h
-    | diag d => simp [hasProxCode] at h
-    | lin i => simp [hasProxCode] at h
+    | ident => simp [hasProx] at h
+    | diag d => simp [hasProx] at h
+    | lin i => simp [hasProx] at h
 
-/-- the same for evaluation -/
-theorem eval_raises_of_not_hasEvalCode (E : Env α) :
-    ∀ (t : Fn α) (x : Arg α), hasEvalCode E t = false → Raises (eval E t x) := by
+/-- **an unadvertised evaluation raises** -/
+theorem eval_raises_of_not_hasEval (E : Env α) :
+    ∀ (t : Fn α) (x : Arg α), hasEval E t = false → Raises (eval E t x) := by
   intro t
   induction t with
-  | leaf i => intro x h; simp only [hasEvalCode] at h; exact ⟨.notimpl, by simp [eval, h]⟩
-  | scaled c f ih => intro x h; simp only [hasEvalCode] at h; exact raises_bind _ (ih x h)
+  | leaf i => intro x h; simp only [hasEval] at h; exact ⟨.notimpl, by simp [eval, h]⟩
+  | scaled c f ih => intro x h; simp only [hasEval] at h; exact raises_bind _ (ih x h)
   | sum f g ihf ihg =>
     intro x h
-    simp only [hasEvalCode, Bool.and_eq_false_iff] at h
+    simp only [hasEval, Bool.and_eq_false_iff] at h
     simp only [eval]
     rcases h with h | h
     · exact raises_bind _ (ihf x h)
@@ -81,10 +96,10 @@ theorem eval_raises_of_not_hasEvalCode (E : Env α) :
       | ok p =>
         obtain ⟨e, he⟩ := ihg x h
         exact ⟨e, by simp [he, bind, Except.bind]⟩
-  | snil => intro x h; simp [hasEvalCode] at h
+  | snil => intro x h; simp [hasEval] at h
   | scons f r ihf ihr =>
     intro x h
-    simp only [hasEvalCode, Bool.and_eq_false_iff] at h
+    simp only [hasEval, Bool.and_eq_false_iff] at h
     match x with
     | .arr _ => exact ⟨.type, rfl⟩
     | .blk [] => exact ⟨.value, rfl⟩
@@ -97,12 +112,46 @@ theorem eval_raises_of_not_hasEvalCode (E : Env α) :
         | ok p =>
           obtain ⟨e, he⟩ := ihr (.blk bs) h
           exact ⟨e, by simp [he, bind, Except.bind]⟩
-  | lossNone y A s => intro x h; simp [hasEvalCode] at h
-  | loss y A f s ih => intro x h; simp [hasEvalCode] at h
-  | sqL2 y A w s => intro x h; simp [hasEvalCode] at h
+  | lossNone y A s => intro x _; exact ⟨.notimpl, rfl⟩
+  | loss y A f s ih =>
+    intro x h
+    simp only [hasEval] at h
+    simp only [eval]
+    cases hd : Arg.sub (E.applyOpt A x) y with
+    | error e => exact ⟨e, rfl⟩
+    | ok d =>
+      obtain ⟨e, he⟩ := ih d h
+      exact ⟨e, by simp [he, bind, Except.bind]⟩
+  | sqL2 y A w s => intro x h; simp [hasEval] at h
 
-/-- the truthful flags are never more generous than the constructors' flags -/
-theorem hasProxCode_of_hasProx (E : Env α) : ∀ t : Fn α, hasProx E t = true → hasProxCode E t = true := by
+/-! the rule of the tree *before* the repairs 1a0aadd / 689de28 (kept to document the two findings) -/
+
+/-- `has_eval` before 1a0aadd: every `Loss` declared `True` -/
+def hasEvalOld (E : Env α) : Fn α → Bool
+  | .leaf i => E.hasEval i
+  | .scaled _ f => hasEvalOld E f
+  | .sum f g => hasEvalOld E f && hasEvalOld E g
+  | .snil => true
+  | .scons f r => hasEvalOld E f && hasEvalOld E r
+  | .lossNone _ _ _ => true
+  | .loss _ _ _ _ => true
+  | .sqL2 _ _ _ _ => true
+
+/-- `has_prox` before 1a0aadd / 689de28: `Loss` looked at `A` only, `ScaledFunctional` ignored the sign -/
+def hasProxOld (E : Env α) : Fn α → Bool
+  | .leaf i => E.hasProx i
+  | .scaled _ f => hasProxOld E f
+  | .sum _ _ => false
+  | .snil => true
+  | .scons f r => hasProxOld E f && hasProxOld E r
+  | .lossNone _ _ _ => false
+  | .loss _ A _ _ => A.isNone
+  | .sqL2 _ A _ _ => match A with
+    | .nonlin _ => false
+    | _ => true
+
+/-- the repaired flags are never more generous than the old ones -/
+theorem hasProxOld_of_hasProx (E : Env α) : ∀ t : Fn α, hasProx E t = true → hasProxOld E t = true := by
   intro t
   induction t with
   | leaf i => exact id
@@ -111,62 +160,26 @@ theorem hasProxCode_of_hasProx (E : Env α) : ∀ t : Fn α, hasProx E t = true 
   | snil => intro _; rfl
   | scons f r ihf ihr =>
     intro h; simp only [hasProx, Bool.and_eq_true] at h
-    simp only [hasProxCode, Bool.and_eq_true]; exact ⟨ihf h.1, ihr h.2⟩
+    simp only [hasProxOld, Bool.and_eq_true]; exact ⟨ihf h.1, ihr h.2⟩
   | lossNone y A s => intro h; simp [hasProx] at h
-  | loss y A f s ih => intro h; simp only [hasProx, Bool.and_eq_true] at h; exact h.1.1
+  | loss y A f s ih => intro h; simp only [hasProx, Bool.and_eq_true] at h; exact h.1
   | sqL2 y A w s => exact id
 
-theorem hasEvalCode_of_hasEval (E : Env α) : ∀ t : Fn α, hasEval E t = true → hasEvalCode E t = true := by
+theorem hasEvalOld_of_hasEval (E : Env α) : ∀ t : Fn α, hasEval E t = true → hasEvalOld E t = true := by
   intro t
   induction t with
   | leaf i => exact id
   | scaled c f ih => exact ih
   | sum f g ihf ihg =>
     intro h; simp only [hasEval, Bool.and_eq_true] at h
-    simp only [hasEvalCode, Bool.and_eq_true]; exact ⟨ihf h.1, ihg h.2⟩
+    simp only [hasEvalOld, Bool.and_eq_true]; exact ⟨ihf h.1, ihg h.2⟩
   | snil => intro _; rfl
   | scons f r ihf ihr =>
     intro h; simp only [hasEval, Bool.and_eq_true] at h
-    simp only [hasEvalCode, Bool.and_eq_true]; exact ⟨ihf h.1, ihr h.2⟩
+    simp only [hasEvalOld, Bool.and_eq_true]; exact ⟨ihf h.1, ihr h.2⟩
   | lossNone y A s => intro h; simp [hasEval] at h
   | loss y A f s ih => intro _; rfl
   | sqL2 y A w s => exact id
-
-/-- trees on which the constructors' flags are truthful: every scale is positive and every
-    generic `Loss` wraps a functional that has the operation -/
-def Clean (E : Env α) : Fn α → Prop
-  | .leaf _ => True
-  | .scaled c f => 0 < c ∧ Clean E f
-  | .sum f g => Clean E f ∧ Clean E g
-  | .snil => True
-  | .scons f r => Clean E f ∧ Clean E r
-  | .lossNone _ _ _ => False
-  | .loss _ A f s => 0 < s ∧ hasEval E f = true ∧ (A = none → hasProx E f = true) ∧ Clean E f
-  | .sqL2 _ _ _ _ => True
-
-theorem flags_code_eq_of_clean (E : Env α) :
-    ∀ t : Fn α, Clean E t → hasProxCode E t = hasProx E t ∧ hasEvalCode E t = hasEval E t := by
-  intro t
-  induction t with
-  | leaf i => intro _; exact ⟨rfl, rfl⟩
-  | scaled c f ih =>
-    intro h; obtain ⟨h1, h2⟩ := ih h.2
-    simp [hasProxCode, hasProx, hasEvalCode, hasEval, h1, h2, h.1]
-  | sum f g ihf ihg =>
-    intro h; obtain ⟨_, h2⟩ := ihf h.1; obtain ⟨_, h4⟩ := ihg h.2
-    simp [hasProxCode, hasProx, hasEvalCode, hasEval, h2, h4]
-  | snil => intro _; exact ⟨rfl, rfl⟩
-  | scons f r ihf ihr =>
-    intro h; obtain ⟨h1, h2⟩ := ihf h.1; obtain ⟨h3, h4⟩ := ihr h.2
-    simp [hasProxCode, hasProx, hasEvalCode, hasEval, h1, h2, h3, h4]
-  | lossNone y A s => intro h; exact h.elim
-  | loss y A f s ih =>
-    intro h
-    obtain ⟨hs, he, hp, _⟩ := h
-    cases A with
-    | none => simp [hasProxCode, hasProx, hasEvalCode, hasEval, he, hp rfl, hs]
-    | some i => simp [hasProxCode, hasProx, hasEvalCode, hasEval, he]
-  | sqL2 y A w s => intro _; exact ⟨rfl, rfl⟩
 
 end flags
 
@@ -222,12 +235,8 @@ theorem prox_mul (E : Env K) (t : Fn K) (c : K) (v : Arg K) (lam : K) :
   | loss y A f s =>
     left
     simp only [Fn.mul, prox]
-    cases A with
-    | some i => rfl
-    | none =>
-      simp only
-      have : s * c * lam = s * (lam * c) := by ring
-      rw [this]
+    have : s * c * lam = s * (lam * c) := by ring
+    rw [this]
   | sqL2 y A w s => right; exact ⟨y, A, w, s, rfl⟩
   | leaf i => left; rfl
   | sum f g => left; rfl
